@@ -5,6 +5,7 @@ answers of the step's query calls.  Integers / lists / bools / short strings onl
 
 Case (JSON):  {"specs": [...], "objects": [...]            as harness/drivers/reg_common.World
                "unhashable": [component identities whose class has __hash__ = None],
+               "falsy_factories": [identities of ``factory=`` arguments that are falsy callables],
                "falsy": [component identities that are falsy: __bool__ False (hashable ones) or
                          __len__ 0 (unhashable ones); invisible to the model],
                "steps": [{"op": [...], "queries": [[...], ...]}, ...]}
@@ -89,6 +90,18 @@ class UFactory:
         return self.ret
 
 
+class FalsyUFactory(UFactory):
+    """a callable that is falsy the way an empty container is"""
+
+    def __len__(self):
+        return 0
+
+
+class FalseUFactory(UFactory):
+    def __bool__(self):
+        return False
+
+
 def info_str(i):
     return "" if i == 0 else "i%d" % i
 
@@ -102,6 +115,7 @@ class Env:
         self.world = R.World(case)
         self.Comp, self.UComp, self.FComp, self.UFComp = make_classes()
         self.falsy = set(case.get("falsy", []))
+        self.falsy_facs = set(case.get("falsy_factories", []))
         self.unh = set(case.get("unhashable", []))
         self.comps = {}
         self.facs = {}
@@ -126,7 +140,10 @@ class Env:
         if k is None:
             return None
         if k not in self.facs:
-            self.facs[k] = UFactory(k)
+            cls = UFactory
+            if k in self.falsy_facs:
+                cls = FalsyUFactory if k % 2 == 0 else FalseUFactory
+            self.facs[k] = cls(k)
         return self.facs[k]
 
     def req(self, lst, style):
@@ -142,6 +159,14 @@ class Env:
         return tuple(out)
 
     # ---- canonical records
+    def cvq(self, c):
+        """a component in a query answer: never None"""
+        r = self.cv(c)
+        if r is None:
+            self.exc = True
+            return [999, 999]
+        return r
+
     def cv(self, c):
         if c is None:
             return None
@@ -199,6 +224,14 @@ def do_op(env, op):
     if k == "reinit":
         c.__init__("c16")
         return None
+    if k == "uboth":
+        # component and factory= together: "Can't specify factory and component." (TypeError)
+        _, unreg, v, p, n, fac = op
+        comp, prov, name, f = env.comp(v), w.specs[p], w.name(n), env.fac(fac)
+        f.ret = comp
+        if unreg:
+            return c.unregisterUtility(comp, prov, name, factory=f)
+        return c.registerUtility(comp, prov, name, "", factory=f)
     if k == "regU":
         _, v, p, n, i, fac, style = op
         comp, prov, name, info = env.comp(v), w.specs[p], w.name(n), info_str(i)
@@ -262,11 +295,11 @@ def do_query(env, q):
     default = object()
     if k == "util":
         r = c.queryUtility(w.specs[q[1]], w.name(q[2]), default)
-        return None if r is default else env.cv(r)[0]
+        return None if r is default else env.cvq(r)[0]
     if k == "utilsFor":
-        return sorted([w.name_id(n), env.cv(v)[0]] for n, v in c.getUtilitiesFor(w.specs[q[1]]))
+        return sorted([w.name_id(n), env.cvq(v)[0]] for n, v in c.getUtilitiesFor(w.specs[q[1]]))
     if k == "allUtils":
-        return [env.cv(v) for v in c.getAllUtilitiesRegisteredFor(w.specs[q[1]])]
+        return [env.cvq(v) for v in c.getAllUtilitiesRegisteredFor(w.specs[q[1]])]
     if k == "adapter":
         r = c.queryAdapter(w.objects[q[1]], w.specs[q[2]], w.name(q[3]), default)
         return None if r is default else r
